@@ -790,6 +790,19 @@ def generate(unit_dir, features=("parallel", "shred-derive"), mode="T", active=N
             # the item does not exist in the source: the code that runs is the fallback (a trait's default method)
             item = find_item(items_of(os.path.join(REPO, fb["file"])), fb["kind"], fb["name"], fb.get("owner"), cfg=set(features))
         owner = it_spec.get("emit_owner")
+        # the impl header and its associated types are written in the unit, not extracted: make sure the source still says the same
+        if owner and item.owner and "type " in owner:
+            for m in re.finditer(r"\btype\s+(\w+)\s*=\s*([^;]+);", owner):
+                nm, want = m.group(1), m.group(2)
+                for other in items:
+                    if other.kind == "type" and other.name == nm and other.owner == item.owner:
+                        mm = re.search(r"=\s*([^;]+);", other.text)
+                        if mm:
+                            def _n(t):
+                                t = re.sub(r"'\w+\s*,?\s*", "", t)
+                                return re.sub(r"\s+|<>", "", t)
+                            if _n(mm.group(1)) != _n(want):
+                                raise Unsupported("associated type `%s` of `%s` is `%s` in the source; the unit was written for `%s`" % (nm, item.owner[:80], mm.group(1).strip(), want.strip()))
         if owner != cur_owner:
             if cur_owner is not None:
                 em.add("}", part="gen")
